@@ -26,6 +26,7 @@ type c08Step struct {
 	NewETag bool      `json:"new_etag,omitempty"`
 	Expires bool      `json:"expires,omitempty"`
 	VaryChg bool      `json:"vary_change,omitempty"`
+	NoDate  bool      `json:"no_date,omitempty"` // the validation reply carries no Date (origin without a clock)
 	Follow  []float64 `json:"follow_s"`
 }
 
@@ -72,6 +73,7 @@ func genC08(r *rand.Rand) c08Case {
 				s.Follow = append(s.Follow, f)
 			}
 		}
+		s.NoDate = chance(r, 0.2)
 		c.Steps = append(c.Steps, s)
 	}
 	return c
@@ -177,6 +179,9 @@ func c08Run(r *run.Runner, c c08Case) {
 			if st.Expires {
 				rs.Expires = "+5"
 			}
+			if st.NoDate {
+				rs.Date = "absent"
+			}
 			return Render(&rs, uc.Enter, uc.Serial)
 		}
 		// full reply
@@ -186,6 +191,9 @@ func c08Run(r *run.Runner, c c08Case) {
 		}
 		rs := baseSpec(st.NewL)
 		rs.DelayS = bgDelay
+		if st.NoDate {
+			rs.Date = "absent"
+		}
 		if st.XNew {
 			rs.Extra = map[string][]string{"X-New": {fmt.Sprintf("s%d", stepIdx)}}
 		}
@@ -268,6 +276,9 @@ func c08Run(r *run.Runner, c c08Case) {
 		}
 		vcall := calls[0]
 		sig := fmt.Sprintf("kind=%s,mode=%s", st.Kind, st.Mode)
+		if st.NoDate {
+			sig += ",no-date"
+		}
 		r.Count("validations:"+sig, 1)
 		expectL := curL
 		if st.NewL > 0 {
